@@ -37,20 +37,31 @@ def _fitted(ctx, ident=1, ncomp=1):
 
 
 def _proj(ctx, cfg):
+    """projection, description, forward map. cfg["proj"] = (a, c): separable map (a e + b, c n + d);
+    cfg["proj"] = (a11, a12, a21, a22): general (non-separable) affine map, e.g. a rotation or shear.
+    Slopes are concrete rationals, offsets symbolic."""
     if not cfg.get("proj"):
         return None, None, (lambda e, n: (e, n))
-    a, c = cfg["proj"]
-    a, c = Fraction(a), Fraction(c)
+    pr = [Fraction(v) for v in cfg["proj"]]
     b, d = ctx.real("pb"), ctx.real("pd")
+    if len(pr) == 2:
+        a11, a12, a21, a22 = pr[0], Fraction(0), Fraction(0), pr[1]
+    else:
+        a11, a12, a21, a22 = pr
+    det = a11 * a22 - a12 * a21
     if not ctx.sym:
-        a, c = float(a), float(c)
+        a11, a12, a21, a22, det = float(a11), float(a12), float(a21), float(a22), float(det)
+
+    def fwd(e, n):
+        return e * a11 + n * a12 + b, e * a21 + n * a22 + d
 
     def projection(e, n, inverse=False):
         if inverse:
-            return (e - b) / a, (n - d) / c
-        return e * a + b, n * c + d
+            x, y = e - b, n - d
+            return (x * a22 - y * a12) / det, (y * a11 - x * a21) / det
+        return fwd(e, n)
 
-    return projection, (a, b, c, d), (lambda e, n: (e * a + b, n * c + d))
+    return projection, (a11, a12, a21, a22), fwd
 
 
 def h_grid(ctx):
@@ -268,6 +279,8 @@ def _cfg_grid(tier, seed):
         {"region": "given", "maxq": "5/2", "adjust": "region"},
         {"region": "given", "shape": (2, 3), "proj": ("2", "-3"), "extra": 1, "dims": ("lat", "lon"), "names": ["temp"]},
         {"region": "given", "shape": (1, 3), "ncomp": 3, "names": ["a", "b", "c"], "extra": 2},
+        {"region": "given", "shape": (2, 3), "proj": ("3/5", "-4/5", "4/5", "3/5"), "ncomp": 2},
+        {"region": "fitted", "shape": (3, 2), "proj": ("1", "1/2", "0", "2"), "pixel": True},
     ]
     if tier == "quick":
         return q
@@ -283,12 +296,12 @@ def _cfg_grid(tier, seed):
 
 
 HARNESSES = [
-    Harness("grid", h_grid, _cfg_grid, bounds="symbolic region (given or the fitted data's bounding box), shapes up to 3x3 incl. non-square, spacing with <= 2.5 intervals per axis, both adjust modes and registrations, 0-2 extra coordinates, 1-3 components, custom dims and names, affine projections"),
+    Harness("grid", h_grid, _cfg_grid, bounds="symbolic region (given or the fitted data's bounding box), shapes up to 3x3 incl. non-square, spacing with <= 2.5 intervals per axis, both adjust modes and registrations, 0-2 extra coordinates, 1-3 components, custom dims and names, affine projections (separable and non-separable: rotation, shear)"),
     Harness("grid_explicit_coordinates", h_grid_coordinates, lambda tier, seed: [{"shape": sh, "twod": t, "extra": x} for sh in ([(2, 3)] if tier == "quick" else [(1, 3), (3, 1), (2, 3), (3, 2)]) for t in (False, True) for x in ((0, 1) if t else (0,))], bounds="symbolic non-uniform coordinate vectors as 1-D arrays or 2-D meshgrids (+ a symbolic 2-D extra coordinate), shapes up to 3x2"),
     Harness(
         "profile",
         h_profile,
-        lambda tier, seed: [{"size": 2}, {"size": 3, "proj": ("2", "-3"), "extra": 1, "ncomp": 2, "dims": ("lat", "lon")}] + ([{"size": 1}, {"size": 4, "proj": ("-1/2", "4")}, {"size": 3}] if tier == "thorough" else []),
+        lambda tier, seed: [{"size": 2}, {"size": 3, "proj": ("2", "-3"), "extra": 1, "ncomp": 2, "dims": ("lat", "lon")}, {"size": 3, "proj": ("3/5", "-4/5", "4/5", "3/5")}] + ([{"size": 1}, {"size": 4, "proj": ("-1/2", "4")}, {"size": 3}] if tier == "thorough" else []),
         bounds="symbolic end points, size 1-4, affine projection or none, extra coordinate, 1-2 components",
         engine={"oneshot": True},
         outside="OUT-TRANSC (values of the trigonometric functions)",
@@ -296,7 +309,7 @@ HARNESSES = [
     Harness(
         "scatter",
         h_scatter,
-        lambda tier, seed: [{"kind": "uf", "size": 2, "seed": 0}, {"kind": "uf", "size": 2, "seed": 3, "proj": ("2", "-3"), "default_region": True}, {"kind": "checkerboard", "size": 2, "seed": 1}] + ([{"kind": "uf", "size": 4, "seed": seed}] if tier == "thorough" else []),
+        lambda tier, seed: [{"kind": "uf", "size": 2, "seed": 0}, {"kind": "uf", "size": 2, "seed": 3, "proj": ("2", "-3"), "default_region": True}, {"kind": "uf", "size": 2, "seed": 4, "proj": ("1", "1/2", "0", "2")}, {"kind": "checkerboard", "size": 2, "seed": 1}] + ([{"kind": "uf", "size": 4, "seed": seed}] if tier == "thorough" else []),
         bounds="symbolic region, 2-4 points, RNG draws symbolic in [0,1)",
         extra_globals=_scatter_globals,
         stubs=["check_random_state -> StubRandomState (uniform contract)"],
